@@ -149,4 +149,16 @@ PROPS = {
         "assumptions": ["methods named SetBroadcast, SetUnicast, FromBytes, Add, Del, Update, UpdateOption, AddOption, DeleteOption are mutators by contract and are not called"],
         "trusted_base": ["the harness (reflection-driven call sequences) decides on the real code; the Coq model is shallow"],
     },
+    "C09": {
+        "coq_files": BASE + ["Label/", "Cost/", "Props/C09.v"],
+        "timeout": {"quick": 1200, "thorough": 6000},
+        "rule": "adversarial families at sizes 64, 512, 1 k, 4 k, 16 k, 65507: compression-pointer fans (long name and maximal 253-octet name), unterminated label chains, runs of empty names, "
+                "IA_NA nested to n/16, relay messages nested to n/38, thousands of minimal options, vendor sub-options, empty boot parameters, large ORO, repeated / zero-length / one-octet "
+                "DHCPv4 options, DHCPv4-in-DHCPv6; plus 300 (quick) / 20 000 (thorough) hill-climbing steps maximising allocated octets per input octet; measured: runtime TotalAlloc delta "
+                "of decode + re-encode (GC off) and reflective deep size of the decoded value; bound checked: size <= 300 n + 4096, alloc <= 1500 n + depth n + 4096 with depth <= n/8 + 1; "
+                "a family that breaks the bound is not run at larger sizes; non-trivial = distinct measured input",
+        "assumptions": ["byte slices that are views into one shared private copy (vendor sub-options) are counted by length, not capacity",
+                        "TotalAlloc is read in-process around a single-goroutine call with the collector disabled"],
+        "trusted_base": ["Go runtime allocation accounting; the reflective deep-size walker"],
+    },
 }
